@@ -6,6 +6,7 @@ import (
 	"fmt"
 	"go/token"
 	"go/types"
+	"os"
 
 	"golang.org/x/tools/go/ssa"
 )
@@ -232,6 +233,11 @@ func (r *FnRun) execInstr(st *State, ins ssa.Instruction, in map[*ssa.BasicBlock
 		h := tb.Fresh("map!"+r.fn.Name(), BV64)
 		r.addFact(tb.Ne(h, tb.BVI(64, 0)))
 		r.vals[x] = Scalar{h}
+		if r.root.freshMaps == nil {
+			r.root.freshMaps = map[string][]freshMap{}
+		}
+		mtk := mapTypeKey(x.Type())
+		r.root.freshMaps[mtk] = append(r.root.freshMaps[mtk], freshMap{h: h, t: x.Type().Underlying().(*types.Map)})
 		r.mapInitEmpty(st, x.Type(), h)
 		return st
 
@@ -345,6 +351,9 @@ func (r *FnRun) execAlloc(st *State, a *ssa.Alloc) {
 		r.root.localAddrs = append(r.root.localAddrs, addr)
 		r.root.localSizes = append(r.root.localSizes, r.e.sizeof(elem))
 		// a new object does not lie inside the backing array of a slice that existed before the allocation
+		if os.Getenv("GOVC_DEBUG_MODS") != "" {
+			fmt.Fprintf(os.Stderr, "alloc %s: %d known ranges\n", name, len(r.root.knownRanges))
+		}
 		for _, kr := range r.root.knownRanges {
 			r.addFact(tb.Not(tb.ULt(tb.Sub(addr, kr[0]), kr[1])))
 		}
